@@ -12,6 +12,8 @@ import (
 	"time"
 )
 
+var globalCS *ContractSet
+
 type Options struct {
 	Property string
 	Tier     string
@@ -86,6 +88,7 @@ func RunCheck(opt Options) int {
 		return fail("contracts: %v", err)
 	}
 	en := &Engine{Prog: prog, CS: cs, VerifDir: opt.VerifDir}
+	globalCS = cs
 	tLoad := time.Since(t0).Seconds()
 
 	// units
@@ -481,12 +484,22 @@ func writeEvidence(opt Options, units []*UnitResult, order []string, byObl map[s
 			trustedUsed = append(trustedUsed, k)
 		}
 	}
+	var unverified []string
+	for k := range trusted {
+		if fc, ok := globalCS.Funcs[k]; ok && fc.Unverified != "" {
+			unverified = append(unverified, shortName(k)+": "+fc.Unverified)
+		}
+	}
+	sort.Strings(unverified)
 	assumptions := []string{
 		"partial correctness only: termination is not verified",
 		"Go int/int64 treated as mathematical integers (no overflow obligations generated); bytes are 8-bit vectors",
 		"logging.* calls and the text of error/log messages are dropped",
 		"sequential semantics, no resource exhaustion",
 		"assumed library contracts (see /verif/trusted): " + strings.Join(trustedUsed, ", "),
+	}
+	for _, u := range unverified {
+		assumptions = append(assumptions, "contract of a /repo function assumed, body not verified: "+u)
 	}
 	for k := range unmodelled {
 		assumptions = append(assumptions, "unmodelled external (results fresh): "+k)
